@@ -11,14 +11,36 @@ open SwV.Codec.C01
 structure St where
   vol : Vol := {}
   kind : String := "mem"
+  keys : List Nat := []       -- distinct ids written so far on this volume
+  late : List Nat := []       -- ids that were NEW when ≥ 129 larger ids were already there
+  reloaded : Bool := false
+
+/-- coverage of the late-key family: operations on an id that was inserted far out of order (the
+    in-memory CompactMap keeps such a key in a section's overflow area) -/
+def lateCov (s : St) (op : Op) (mo : MOut) : List String :=
+  let id := SwV.Spec.C01.opId op
+  if !s.late.contains id then [] else
+  let k := match op, mo with
+    | .delete .., .d (.ok sz) => if 0 < sz then "d.removed" else ""
+    | .hdelete .., .hd 202 _ => "d.removed"
+    | .read .., .r .deleted => "r.deleted"
+    | .read .., .r (.ok ..) => "r.data"
+    | .write .., .w (.ok false) => (match s.vol.idx id with | some e => if e.size < 0 then "w.over-deleted" else "" | none => "")
+    | _, _ => ""
+  if k == "" then [] else
+  [s!"COV late.{k}.{s.kind}"] ++ (if s.reloaded then [s!"COV late.{k}.after-reload.{s.kind}"] else [])
 
 def stepLine (s : St) (n : Nat) (ln : Line) : St × List String :=
   match ln.op with
   | "reset" =>
     let ttl := ttlOfTok (ln.args.getD 1 "-")
-    ({ vol := Vol.init ttl, kind := ln.args.getD 0 "mem" }, diff n ln ["ok"] ++ [s!"COV reset.{ln.args.getD 0 "mem"}"] ++ (if ttl ≠ (0, 0) then ["COV reset.ttl-volume"] else []))
+    ({ vol := Vol.init ttl, kind := ln.args.getD 0 "mem", keys := [], late := [], reloaded := false }, diff n ln ["ok"] ++ [s!"COV reset.{ln.args.getD 0 "mem"}"] ++ (if ttl ≠ (0, 0) then ["COV reset.ttl-volume"] else []))
   | "stop" => (s, diff n ln ["ok"] ++ ["COV stop"])
-  | "sorted" => ({ vol := reopenSorted s.vol, kind := "sorted" }, diff n ln ["ok"] ++ ["COV reset.sorted"])
+  | "sorted" => ({ s with vol := reopenSorted s.vol, kind := "sorted" }, diff n ln ["ok"] ++ ["COV reset.sorted"])
+  | "reload" =>
+    -- a volume reopened as sorted stays sorted (.dat still not writable)
+    ({ s with vol := if s.kind == "sorted" then reopenSorted s.vol else reload s.kind s.vol, reloaded := true },
+     diff n ln ["ok"] ++ [s!"COV reload.{s.kind}"])
   | _ =>
     match opOfLine ln with
     | none => (s, [s!"DIFF {n} unknown-op {ln.op}"])
@@ -29,7 +51,16 @@ def stepLine (s : St) (n : Nat) (ln : Line) : St × List String :=
         | none => []
         | some cls => [specfail n cls (ln.op ++ " " ++ String.intercalate " " (ln.args.take 2))]
       let cov := covOf s.vol op mo ++ (if ln.op == "wf" then ["COV wf.batched-path"] else [])
-      ({ s with vol := vol' }, diff n ln (mToks mo) ++ j ++ cov ++ (if s.kind == "sorted" then cov.map (· ++ "@sorted") else []))
+      let newLate := match op, mo with
+        | .write id _ _, .w (.ok false) =>
+          (s.vol.idx id).isNone && !s.keys.contains id && decide (129 ≤ s.keys.countP (id < ·))
+        | _, _ => false
+      let s1 := match op, mo with
+        | .write id _ _, .w (.ok false) =>
+          if s.keys.contains id then s else { s with keys := id :: s.keys, late := if newLate then id :: s.late else s.late }
+        | _, _ => s
+      ({ s1 with vol := vol' }, diff n ln (mToks mo) ++ j ++ cov ++ (if s.kind == "sorted" then cov.map (· ++ "@sorted") else [])
+        ++ (if newLate then [s!"COV late.w.new.{s.kind}"] else []) ++ lateCov s op mo)
 
 end DrvC01
 
